@@ -1,6 +1,60 @@
-import ZorgVerif.Model.Rename
+import ZorgVerif.Lemmas.Rename
+/-!
+# C14 — `file rename` retargets every link to the page and nothing else
+Model: `Model/Rename.lean` — `renameText` is Python's two `str.replace` passes; `spec` is the
+one-pass reading of the statement: at every position where `[[A]` or `[[A#` starts, `[[A` becomes
+`[[B`, every other character is copied.
+-/
 namespace ZorgVerif.C14
-open ZorgVerif.Rename
-/-- placeholder until Lemmas/Rename.lean lands -/
-theorem C14_placeholder : renameText [] [] [] = [] := by rfl
+open ZorgVerif ZorgVerif.Rename
+
+/-- The two textual replacement passes compute exactly the one-pass specification, for every text and
+all link-safe names (no `[`, `]`, `#` in page names). -/
+theorem C14_spec (a b : Str) (ha : linkSafe a = true) (hb : linkSafe b = true) (txt : Str) :
+    renameText a b txt = spec a b 0 txt := renameText_eq_spec a b ha hb txt
+
+/-- A file without any `[[A]` / `[[A#` is unchanged — by the guard, and also by the replacement. -/
+theorem C14_no_link_unchanged (a b txt : Str) (h : needsRewrite a txt = false) : renameText a b txt = txt :=
+  renameText_no_link a b txt h
+
+/-- `[[A]…` becomes `[[B]…` and `[[A#…` becomes `[[B#…`, wherever they stand (`u` bracket-free). -/
+theorem C14_links_retargeted (a b u v : Str) (ha : linkSafe a = true) (hb : linkSafe b = true)
+    (hu : ∀ c ∈ u, c ≠ '[') :
+    renameText a b (u ++ linkClose a ++ v) = u ++ linkClose b ++ renameText a b v ∧
+    renameText a b (u ++ linkHash a ++ v) = u ++ linkHash b ++ renameText a b v := by
+  simp only [C14_spec a b ha hb, List.append_assoc]
+  exact ⟨by rw [spec_append_plain a b u _ hu, spec_link_close a b v ha],
+         by rw [spec_append_plain a b u _ hu, spec_link_hash a b v ha]⟩
+
+/-- Near misses: a link whose target merely extends `A` (`[[Ax…`, `[[A/x`, `[[A.zo`) or has `A` as a
+suffix (`[[xA]]`, `[[x/A]]`) is a fixed point: in `[[` ++ t ++ `]]`, nothing is rewritten unless `t`
+is `A` itself or starts with `A#`. -/
+theorem C14_near_miss (a b t : Str) (ht : ∀ c ∈ t, c ≠ '[')
+    (hne : ¬ (linkClose a).isPrefixOf ('[' :: '[' :: (t ++ [']', ']'])) = true)
+    (hnh : ¬ (linkHash a).isPrefixOf ('[' :: '[' :: (t ++ [']', ']'])) = true) :
+    spec a b 0 ('[' :: '[' :: (t ++ [']', ']'])) = '[' :: '[' :: (t ++ [']', ']']) := by
+  have h0 : isLinkAt a ('[' :: '[' :: (t ++ [']', ']'])) = false := by
+    simp only [isLinkAt, Bool.or_eq_false_iff]
+    exact ⟨Bool.eq_false_iff.2 hne, Bool.eq_false_iff.2 hnh⟩
+  have h1 : isLinkAt a ('[' :: (t ++ [']', ']'])) = false := by
+    simp only [isLinkAt, linkClose, linkHash, Bool.or_eq_false_iff]
+    cases t with
+    | nil => simp [List.isPrefixOf]
+    | cons c cs =>
+      have : c ≠ '[' := ht c (by simp)
+      simp [List.isPrefixOf, this.symm]
+  rw [spec_zero_cons, if_neg (by simp [h0]), spec_zero_cons, if_neg (by simp [h1])]
+  have := spec_append_plain a b (t ++ [']', ']']) [] (by
+    intro c hc
+    rcases List.mem_append.1 hc with h | h
+    · exact ht c h
+    · simp at h; rw [h]; decide)
+  simp only [List.append_nil, spec_nil] at this
+  rw [this]
+
+/-! Non-vacuity / examples (evaluated by the kernel) -/
+example : renameText "foo".toList "sub/bar".toList "see [[foo]] [[foo#x]] [[foobar]] [[xfoo]] [[foo/x]] [foo] [[foo".toList
+    = "see [[sub/bar]] [[sub/bar#x]] [[foobar]] [[xfoo]] [[foo/x]] [foo] [[foo".toList := by decide
+example : linkSafe "sicp(2e)".toList = true ∧ linkSafe "a#b".toList = false := by decide
+
 end ZorgVerif.C14
